@@ -43,9 +43,16 @@ impl EventGen for ReuseElement {
         instance_element.eval_attributes(context).inspect_err(|_| {
             context.pop_element();
         })?;
-        let instance_size = instance_element.size(context).inspect_err(|_| {
+        let mut instance_size = instance_element.size(context).inspect_err(|_| {
             context.pop_element();
         })?;
+        if instance_size.is_none() && instance_element.name == "line" {
+            // a line written with xy1 / xy2 has a size once these are resolved
+            let mut resolved = instance_element.clone();
+            if resolved.resolve_position(context).is_ok() {
+                instance_size = resolved.size(context).unwrap_or(None);
+            }
+        }
 
         // Override 'default' attr values in the target
         for (attr, value) in reuse_element.get_attrs() {
